@@ -19,11 +19,12 @@ TAG = "session2"
 EXTRACT_TAGS = ["session2", "mid"]
 RULE = ("corpus of repaired-defect witnesses and of blocked-transport scenarios first (among them the scenario of seeded defect "
         "S-C01-1: send blocks, QoS 1 and 2 publishes accepted, loss, reconnect, unblock, CONNACK, acks); exhaustive operation "
-        "sequences of length 3 (quick) / 3 and 4 (thorough) over 16 operations (publish q1/q2, reconnect ok/fail, loss, CONNACK, "
-        "PUBACK/PUBREC/PUBCOMP for ids 1..2, inbound PUBLISH q2, PUBREL, transport blocks, transport accepts again) after "
+        "sequences of length 3 (quick) / 3 and 4 (thorough) over 17 operations (publish q1/q2, reconnect ok/fail, loss, CONNACK, "
+        "PUBACK/PUBREC/PUBCOMP for ids 1..2, inbound PUBLISH q2, PUBREL, transport blocks, transport accepts again, THE PEER VANISHES: "
+        "the next write fails hard with OSError) after "
         "state-building prefixes (window full, message past PUBREC, failed reconnect pending, packets sitting in _out_packet); "
         "seeded random mostly-conforming histories of length 6..60 in which the transport changes its mind with probability "
-        "0..25% per step; histories across the 16-bit id wrap. Every history runs on the real client and on the extracted model: "
+        "0..25% per step and the peer vanishes with probability 0..10% per step; histories across the 16-bit id wrap. Every history runs on the real client and on the extracted model: "
         "per operation the events (hand-overs to _out_packet, writes, callbacks, MQTTMessageInfo changes) and the state "
         "(message stores, _out_packet with kinds/ids/flags/info, blocked flag) are compared, and the implementation trace is "
         "judged by the extracted checkers. distinct = distinct (config, implementation trace); non-trivial = the trace hands "
@@ -59,6 +60,8 @@ def enc_op(o):
         return [4, o[1], o[2], 0, 0, 0]
     if o[0] == "block":
         return [5, int(o[1]), 0, 0, 0, 0]
+    if o[0] == "fail":
+        return [5, 2, 0, 0, 0, 0]
     raise ValueError(o)
 
 
@@ -68,6 +71,19 @@ def enc_cfg(cfg):
 
 class Boom(Exception):
     pass
+
+
+class AlwaysFail:
+    """send plan of a FakeSock whose send() raises BrokenPipeError (an OSError) every time"""
+
+    def __bool__(self):
+        return True
+
+    def popleft(self):
+        return -1
+
+    def clear(self):
+        pass
 
 
 class AlwaysBlock:
@@ -191,18 +207,31 @@ def run_impl(cfg, ops):
         ev.append([4, msg.mid, msg.qos, tag_of_payload(msg.payload), 0, 0])
         if st["raise_next"]:
             raise Boom()
+    def on_disconnect(*a):
+        # the connection ended: end of stream, refused CONNACK, or a write that failed hard
+        flush_wire()
+        ev.append([8, 0, 0, 0, 0, 0])
     c.on_publish = on_publish
     c.on_message = on_message
+    c.on_disconnect = on_disconnect
 
     orig_set = mqtt.MQTTMessageInfo._set_as_published
+    # reconnect() reports a queued publish as lost by assigning info.rc: observe the assignment itself (publish() also
+    # assigns MQTT_ERR_CONN_LOST when the write of its packet failed hard - that one is reported by its return value)
+    rc_slot = mqtt.MQTTMessageInfo.__dict__["rc"]
+
+    def rc_set(self_info, value):
+        if st.get("in_reconnect") and value == mqtt.MQTT_ERR_CONN_LOST:
+            flush_wire()
+            ev.append(["lost", self_info])
+        rc_slot.__set__(self_info, value)
+    mqtt.MQTTMessageInfo.rc = property(lambda self_info: rc_slot.__get__(self_info, mqtt.MQTTMessageInfo), rc_set)
 
     def patched(self_info):
         flush_wire()
         was = self_info._published
         orig_set(self_info)
         if not was:
-            if self_info.rc == mqtt.MQTT_ERR_CONN_LOST:
-                ev.append(["lost", self_info])
             ev.append(["pubd", self_info])
     mqtt.MQTTMessageInfo._set_as_published = patched
 
@@ -231,7 +260,9 @@ def run_impl(cfg, ops):
         inm = [[m.mid, tag_of_payload(m.payload)] for m in c._in_messages.values()]
         return {"inflight": c._inflight_messages, "sock": int(c._sock is not None),
                 "first": int(bool(c._mqttv5_first_connect)), "out": outm, "inm": inm,
-                "blocked": int(c._sock is not None and bool(c.socks[-1].send_plan)), "outq": queue_projection()}
+                "blocked": (0 if c._sock is None else 1 if isinstance(c.socks[-1].send_plan, AlwaysBlock)
+                            else 2 if isinstance(c.socks[-1].send_plan, AlwaysFail) else 0),
+                "outq": queue_projection()}
 
     results = []
     try:
@@ -248,7 +279,8 @@ def run_impl(cfg, ops):
                     info = c.publish("t", str(tag).encode(), o[1])
                     st["infos"][id(info)] = (tag, info)
                     st["cur_tag"] = None
-                    if o[1] > 0 and info.rc in (0, 4):
+                    if o[1] > 0 and info.rc != 15:
+                        # stored (also when the write of its PUBLISH failed hard and publish() returned CONN_LOST)
                         st["tag_of_mid"][info.mid] = tag
                         st["rc0"][tag] = (info, int(info.rc))
                     flush_wire()
@@ -256,14 +288,17 @@ def run_impl(cfg, ops):
                 elif o[0] == "rec":
                     ev.append([9, 0, 0, 0, 0, 0])
                     c.connect_fail.append(not o[1])
-                    c.reconnect()
+                    st["in_reconnect"] = True
+                    try:
+                        c.reconnect()
+                    finally:
+                        st["in_reconnect"] = False
                     flush_wire()
                 elif o[0] == "lost":
                     if c._sock is not None:
                         c.socks[-1].eof = True
                         c.loop_read()
                         flush_wire()
-                        ev.append([8, 0, 0, 0, 0, 0])
                 elif o[0] == "rx":
                     if c._sock is not None:
                         kind, a, b, cc, raises = o[1], o[2], o[3], o[4], o[5]
@@ -289,8 +324,6 @@ def run_impl(cfg, ops):
                         finally:
                             st["raise_next"] = False
                             flush_wire()
-                        if had is not None and c._sock is None:
-                            ev.append([8, 0, 0, 0, 0, 0])
                 elif o[0] == "ack":
                     c.ack(o[1], o[2])
                     flush_wire()
@@ -303,6 +336,14 @@ def run_impl(cfg, ops):
                             c.socks[-1].send_plan = collections.deque()
                             c.loop_write()
                             flush_wire()
+                elif o[0] == "fail":
+                    if c._sock is not None:
+                        # the peer is gone; the client finds out when it next writes.  select() reports the socket
+                        # writable, so the event loop calls loop_write() right away
+                        ev.append([12, 1, 0, 0, 0, 0])
+                        c.socks[-1].send_plan = AlwaysFail()
+                        c.loop_write()
+                        flush_wire()
             except (Boom, OSError):
                 flush_wire()
                 ev.append([5, 0, 0, 0, 0, 0])
@@ -316,6 +357,7 @@ def run_impl(cfg, ops):
                 results[-1][1]["problems"] = list(st["problems"])
     finally:
         mqtt.MQTTMessageInfo._set_as_published = orig_set
+        mqtt.MQTTMessageInfo.rc = rc_slot
     return results
 
 
@@ -407,6 +449,7 @@ def small_alphabet():
     ops.append(("rx", "pubrel", 1, 0, 0, False))
     ops.append(("block", True))
     ops.append(("block", False))
+    ops.append(("fail",))
     return ops
 
 
@@ -418,8 +461,20 @@ def random_ops(rng, n, cfg, conforming=True):
     inb = 200
     blocked = False
     pblock = rng.choice([0.0, 0.05, 0.12, 0.25])      # how often the transport changes its mind
+    pfail = rng.choice([0.0, 0.0, 0.04, 0.10])         # how often the peer vanishes (the next write fails hard)
+    doomed = False                                     # a hard failure is armed: the socket dies at the next write
     for _ in range(n):
         r = rng.random()
+        if doomed and rng.random() < 0.35:
+            # the application notices (on_disconnect) and reconnects
+            ok = rng.random() < 0.8
+            ops.append(("rec", ok))
+            sock, cack, doomed, blocked = ok, False, False, False
+            continue
+        if sock and not doomed and rng.random() < pfail:
+            ops.append(("fail",))
+            doomed = True
+            continue
         if sock and rng.random() < pblock:
             blocked = not blocked if rng.random() < 0.85 else blocked
             ops.append(("block", blocked))
@@ -531,7 +586,36 @@ def corpus_cases():
          [("rec", True), ca, ("rx", "publish", 1, 7, 301, True), ("rx", "pubrel", 50, 0, 0, False)]),
         ("offline-then-window", {"clean": 0, "max": 2, "maxq": 0, "manual": False, "suppress": False},
          [("pub", 1), ("pub", 2), ("pub", 1), ("rec", True), ("pub", 1), ca, ("rx", "puback", 1, 0, 0, False)]),
-    ] + blocked_corpus()
+    ] + blocked_corpus() + hard_failure_corpus()
+
+
+def hard_failure_corpus():
+    """Histories in which a write fails hard (OSError): witnesses of the defects repaired by e5489c0 (F-C01a) and
+    da8b0f1 (F-C02c), and the shapes of the operations on a dead socket that the model treats specially."""
+    P = {"clean": 0, "max": 2, "maxq": 0, "manual": False, "suppress": False}
+    P1 = dict(P, max=1)
+    C = {"clean": 1, "max": 2, "maxq": 0, "manual": False, "suppress": False}
+    ca = ("rx", "connack", 0, 0, 0, False)
+    F = ("fail",)
+
+    def rx(kind, mid):
+        return ("rx", kind, mid, 0, 0, False)
+    return [
+        # F-C01a: publish(qos>0) on a dead socket: the message leaves the window again, MQTT_ERR_NO_CONN, retransmitted and completed once
+        ("F-C01a-q1", P, [("rec", True), ca, F, ("pub", 1), ("rec", True), ca, rx("puback", 1)]),
+        ("F-C01a-q2", P, [("rec", True), ca, F, ("pub", 2), ("rec", True), ca, rx("pubrec", 1), rx("pubcomp", 1)]),
+        ("F-C01a-window", P1, [("rec", True), ca, ("pub", 1), F, ("pub", 2), ("pub", 1), ("rec", True), ca, rx("puback", 1), rx("pubrec", 2)]),
+        # F-C02c: the CONNACK retransmission loop stops at the failed write; the next message is not marked as sent (no DUP on its first transmission)
+        ("F-C02c", P, [("pub", 1), ("pub", 2), ("rec", True), F, ca, ("rec", True), ca, rx("puback", 1), rx("pubrec", 2), rx("pubcomp", 2)]),
+        ("F-C02c-clean", C, [("pub", 2), ("pub", 1), ("rec", True), F, ca, ("rec", True), ca]),
+        ("F-C02c-pubrel", P, [("rec", True), ca, ("pub", 2), ("pub", 1), rx("pubrec", 1), ("lost",), ("rec", True), F, ca, ("rec", True), ca]),
+        # the other operations on a dead socket: reply writes, PUBREL, the release of a queued message, ack()
+        ("dead-replies", P, [("rec", True), ca, F, ("rx", "publish", 1, 5, 301, False), ("rec", True), ca, ("rx", "publish", 2, 6, 302, False), F, rx("pubrel", 6)]),
+        ("dead-pubrec", P, [("rec", True), ca, ("pub", 2), F, rx("pubrec", 1), ("rec", True), ca, rx("pubcomp", 1)]),
+        ("dead-release", P1, [("rec", True), ca, ("pub", 1), ("pub", 1), F, rx("puback", 1), ("rec", True), ca, rx("puback", 2)]),
+        ("dead-queue-nonempty", P, [("rec", True), ca, ("block", True), ("pub", 0), ("pub", 1), F, ("rec", True), ca, rx("puback", 2)]),
+        ("dead-then-accept", P, [("rec", True), ca, F, ("block", False), ("pub", 1), rx("puback", 1)]),
+    ]
 
 
 def blocked_corpus():
